@@ -1523,6 +1523,132 @@ theorem r_ctl_rmLoop (chain : List TCfg) (l : Link) (hi : RInv chain l) (now : I
               · rw [hnd'] at hd'; cases hd'
 
 
+/-- `RemoveToxic`'s loop takes a chunk from the removed stub's input (whatever the helper's
+state): into the controller's hand. -/
+theorem r_ctl_take (chain : List TCfg) (l : Link) (hi : RInv chain l) (now : Int) (idx : Nat)
+    (dl : Int) (sg : Bool) (hc : l.ctl = some (.rmLoop idx none dl sg)) (l' : Link)
+    (h : l.ctlTakeAlt now = some l') : RInv chain l' := by
+  have hctl := hi.ctl
+  rw [hc] at hctl
+  simp only [CtlFor] at hctl
+  obtain ⟨hdet, hsg, hidx1, hidx, hlen⟩ := hctl
+  subst hsg
+  unfold Link.ctlTakeAlt at h
+  simp only [hc] at h
+  have hne : ¬ (idx - 1 = idx) := by omega
+  have h11 : idx - 1 + 1 = idx := by omega
+  cases hp : l.stages[idx - 1]? with
+  | none => rw [List.getElem?_eq_none_iff] at hp; omega
+  | some prev =>
+  cases hs : l.stages[idx]? with
+  | none => rw [List.getElem?_eq_none_iff] at hs; omega
+  | some s =>
+    have hpi := hi.stages (idx - 1) prev hp
+    rw [hc] at hpi
+    simp only [roleFor, hne, h11, if_false, if_true, StageInv] at hpi
+    obtain ⟨hpsw, hint⟩ := hpi
+    have hsi := hi.stages idx s hs
+    rw [hc] at hsi
+    simp only [roleFor, if_true, StageInv] at hsi
+    obtain ⟨hssw, hspc, hsintr⟩ := hsi
+    cases hio : l.inputOf idx with
+    | none => simp [hio] at h
+    | some rr =>
+      obtain ⟨oc, src⟩ := rr
+      unfold Link.inputOf at hio
+      simp only [hs] at hio
+      cases hq' : s.inq with
+      | cons c rest =>
+        simp only [hq', Option.some.injEq, Prod.mk.injEq] at hio
+        obtain ⟨rfl, rfl⟩ := hio
+        simp only [hs, hq', Link.inputOf, Link.consume, Bool.not_true, Bool.false_eq_true, if_false,
+          Option.some.injEq] at h
+        subst h
+        refine ⟨?_, ?_, hi.chainOK, hi.nocrash, hi.sinkOpen, hi.nofail, hi.srcOpen, hi.srcLive, ?_⟩
+        · intro k x hx
+          simp only [length_modifyAt, roleFor] at hx ⊢
+          rw [getElem?_modifyAt] at hx
+          by_cases hk : k = idx
+          · subst hk
+            rw [if_pos rfl, hs] at hx
+            simp only [Option.map_some, Option.some.injEq] at hx
+            subst hx
+            rw [if_pos rfl]
+            exact ⟨⟨hssw.safe, hssw.wf, hssw.rq, hssw.open_⟩, hspc, hsintr⟩
+          · rw [if_neg hk] at hx
+            have := hi.stages k x hx
+            rw [hc] at this
+            simpa [roleFor] using this
+        · simp only [CtlFor, length_modifyAt]; exact ⟨hdet, trivial, hidx1, hidx, hlen⟩
+        · refine content_by_bytes hi ?_ rfl rfl rfl rfl
+          apply List.ext_getElem?
+          intro k
+          simp only [List.getElem?_map, virt_get, getElem?_modifyAt, hc, tmpOf, ghostOf_none]
+          by_cases hk : k = idx
+          · subst hk
+            simp only [if_true, hs, Option.map_some, ghostOf_self, id]
+            rw [ghost_bytes, stopped_bytes s hspc, hq']
+            simp
+          · rw [ghostOf_other idx c k hk]
+            simp [hk]
+      | nil =>
+        simp only [hq'] at hio
+        cases hoff : l.offerTo idx with
+        | none =>
+          simp only [hoff, inputClosed_false' chain l hi idx, Bool.false_eq_true, if_false] at hio
+          cases hio
+        | some c =>
+          simp only [hoff, Option.some.injEq, Prod.mk.injEq] at hio
+          obtain ⟨rfl, rfl⟩ := hio
+          simp only [hs, hq', hoff, Link.inputOf, Link.consume, Bool.not_true, Bool.false_eq_true, if_false,
+            Option.some.injEq] at h
+          subst h
+          have hnd' : l.ctlDrains (idx - 1) = false := by
+            simp only [Link.ctlDrains, hc]
+            simpa using (fun hh : idx = idx - 1 => hne hh.symm)
+          have hi0 : idx ≠ 0 := by omega
+          rcases offerTo_cases l idx hi0 c hoff with ⟨_, a, ha, hao⟩ | ⟨hd', _, _⟩
+          · rw [hp] at ha
+            cases ha
+            rw [ackUpstream_stage l idx hi0 now hnd']
+            have hra0 := hi.stages (idx - 1) prev hp
+            obtain ⟨hra, hab⟩ := giver_keeps _ prev c now hra0 hao
+            refine ⟨?_, ?_, hi.chainOK, hi.nocrash, hi.sinkOpen, hi.nofail, hi.srcOpen, hi.srcLive, ?_⟩
+            · intro k x hx
+              simp only [length_modifyAt, roleFor] at hx ⊢
+              rw [getElem?_modifyAt] at hx
+              by_cases hk : k = idx - 1
+              · subst hk
+                rw [if_pos rfl, hp] at hx
+                simp only [Option.map_some, Option.some.injEq] at hx
+                subst hx
+                rw [hc] at hra
+                simpa [roleFor] using hra
+              · rw [if_neg hk] at hx
+                have := hi.stages k x hx
+                rw [hc] at this
+                simpa [roleFor] using this
+            · simp only [CtlFor, length_modifyAt]; exact ⟨hdet, trivial, hidx1, hidx, hlen⟩
+            · have hv0 : ∀ k : Nat, l.virt[k]? = l.stages[k]? := by
+                intro k; rw [virt_get, hc]; simp [tmpOf]
+              have hva : l.virt[idx - 1]? = some prev := by rw [hv0, hp]
+              have hvs : l.virt[idx - 1 + 1]? = some s := by rw [h11, hv0, hs]
+              refine content_of_virt hi (idx - 1) prev s hva hvs (fun s => s.fire (.taken now)) (ghost c) c.data hab ?_ ?_
+                rfl rfl rfl rfl
+              · rw [ghost_bytes, stopped_bytes s hspc, hq']; simp
+              · apply List.ext_getElem?
+                intro k
+                rw [h11]
+                simp only [virt_get, getElem?_modifyAt, hc, tmpOf, ghostOf_none]
+                by_cases hk : k = idx
+                · subst hk
+                  simp [hne, hs, ghostOf_self, Ne.symm hne]
+                · rw [ghostOf_other idx c k hk]
+                  by_cases hk1 : k = idx - 1
+                  · subst hk1; simp [hp, hk]
+                  · simp [hk, hk1]
+          · rw [hnd'] at hd'; cases hd'
+
 theorem chainBytes_eraseIdx (ss : List Stage) (idx : Nat) (x : Stage) (hx : ss[idx]? = some x) (hb : x.bytes = []) :
     chainBytes (ss.eraseIdx idx) = chainBytes ss := by
   obtain ⟨pre, post, hss, hlen⟩ := split_one ss idx x hx
@@ -1696,6 +1822,77 @@ theorem C02_move_conserves (chain : List TCfg) (l : Link) (now : Int) (busy : Bo
     · exact r_bufferMove chain l i now l' hi hfa
   · subst hf
     exact r_sourceMove chain l now l' hi hfa
+
+/-- A stub takes a pending interrupt (whatever else its `select` could have picked). -/
+theorem r_intrAlt (chain : List TCfg) (l : Link) (hi : RInv chain l) (i : Nat) (now : Int) (l' : Link)
+    (h : l.intrAlt i now = some l') : RInv chain l' := by
+  unfold Link.intrAlt at h
+  cases hs : l.stages[i]? with
+  | none => simp [hs] at h
+  | some s =>
+    simp only [hs] at h
+    have hsi := hi.stages i s hs
+    have hsw := hsi.sw
+    by_cases hc2 : (s.intr == IntrSt.pending && s.pc.interruptible) = true
+    · rw [if_pos hc2] at h
+      cases h
+      simp only [Bool.and_eq_true, beq_iff_eq] at hc2
+      obtain ⟨hpend, hint⟩ := hc2
+      obtain ⟨hs2, hheld, hinq, hintr, _⟩ := fire_interrupt s hsw now hint
+      have hrun : s.pc ≠ .ret := by intro hp; rw [hp] at hint; simp [Pc.interruptible] at hint
+      have hrole : roleFor l.ctl l.stages.length i = .intr := by
+        revert hsi
+        generalize roleFor l.ctl l.stages.length i = r
+        intro hsi
+        cases r with
+        | normal => have := hsi.intr; rw [hpend] at this; cases this
+        | intr => rfl
+        | stopped => exact absurd hsi.2.1 hrun
+        | fresh => exact absurd hsi.2.1 hrun
+      refine r_modify_same chain l hi i s hs (fun s => { (s.fire (.interrupt now)) with intr := .waitRet }) ?_
+        (by simp [Stage.bytes, hheld, hinq]) (not_drained_of_running chain l hi i s hs hrun) l.race
+      rw [hrole]
+      exact ⟨⟨hs2.safe, hs2.wf, hs2.rq, hs2.open_⟩, Or.inr (Or.inl rfl)⟩
+    · rw [if_neg hc2] at h; cases h
+
+theorem r_recvAlt (chain : List TCfg) (l : Link) (hi : RInv chain l) (i : Nat) (now : Int) (l' : Link)
+    (h : l.recvAlt i now = some l') : RInv chain l' := by
+  unfold Link.recvAlt at h
+  cases hs : l.stages[i]? with
+  | none => simp [hs] at h
+  | some s =>
+    simp only [hs] at h
+    unfold recvPart at h
+    by_cases hc : (s.pc.wantsInput && !(l.detached && i + 1 == l.stages.length)) = true
+    · rw [if_pos hc] at h
+      simp only [Bool.and_eq_true] at hc
+      exact r_receive chain l hi i now s hs hc.1 l' h
+    · rw [if_neg hc] at h; cases h
+
+theorem r_ctlTakeAlt (chain : List TCfg) (l : Link) (hi : RInv chain l) (now : Int) (l' : Link)
+    (h : l.ctlTakeAlt now = some l') : RInv chain l' := by
+  cases hc : l.ctl with
+  | none => rw [ctlTakeAlt_none l now hc] at h; cases h
+  | some x =>
+    cases x with
+    | rmLoop idx tmp dl sg =>
+      cases tmp with
+      | none => exact r_ctl_take chain l hi now idx dl sg hc l' h
+      | some c0 => simp [Link.ctlTakeAlt, hc] at h
+    | _ => simp [Link.ctlTakeAlt, hc] at h
+
+/-- … whichever goroutine moves, whichever ready case a `select` picks (every schedule). -/
+theorem C02_anymove_conserves (chain : List TCfg) (l : Link) (now : Int) (busy : Bool) (l' : Link) (hi : RInv chain l)
+    (hng : NoGiveUp l now) (h : l.AnyMove chain now busy l') : RInv chain l' := by
+  rcases h.2 with h' | h' | ⟨i, h'⟩ | ⟨i, h'⟩ | h' | ⟨i, h'⟩ | ⟨i, h'⟩ | h'
+  · exact r_ctlMove chain l hi now hng l' h'
+  · exact r_sinkMove chain l now l' hi h'
+  · exact r_stageMove chain l hi i now busy l' hng h'
+  · exact r_bufferMove chain l i now l' hi h'
+  · exact r_sourceMove chain l now l' hi h'
+  · exact r_recvAlt chain l hi i now l' h'
+  · exact r_intrAlt chain l hi i now l' h'
+  · exact r_ctlTakeAlt chain l hi now l' h'
 
 /-- What the receiving peer has got is at all times a prefix of what the sending peer's socket
 has yielded. -/
@@ -1882,14 +2079,15 @@ theorem r_beginAdd (chain : List TCfg) (l : Link) (hi : RInv chain l) (hc : l.ct
 
 /-! ### Executions -/
 
-/-- Executions of one link: moves of its goroutines while no 5 s give-up is due, what the
+/-- Executions of one link: moves of its goroutines — any enabled one, in any order: every
+schedule — while no 5 s give-up is due, what the
 peers do (send more, stop or resume reading), and API calls — add, update, remove (a reset is
 a sequence of removes) — each starting when no other is in progress on the link.  The chain is
 the collection's chain for the link's direction. -/
 inductive Exec (c0 : List TCfg) (l0 : Link) : List TCfg → Link → Prop
   | refl : Exec c0 l0 c0 l0
   | move {chain : List TCfg} {l : Link} (now : Int) (busy : Bool) (l' : Link) :
-      Exec c0 l0 chain l → NoGiveUp l now → l.move chain now busy = some l' → Exec c0 l0 chain l'
+      Exec c0 l0 chain l → NoGiveUp l now → l.AnyMove chain now busy l' → Exec c0 l0 chain l'
   | env {chain : List TCfg} {l : Link} (q : List Bytes) (ready : Bool) :
       Exec c0 l0 chain l → Exec c0 l0 chain { l with srcQ := q, sinkReady := ready }
   | add {chain : List TCfg} {l : Link} (t : TCfg) :
@@ -1905,7 +2103,7 @@ theorem RInv_exec {c0 : List TCfg} {l0 : Link} {chain : List TCfg} {l : Link} (h
     (h : Exec c0 l0 chain l) : RInv chain l := by
   induction h with
   | refl => exact h0
-  | move now busy l' _ hng hm ih => exact C02_move_conserves _ _ now busy l' ih hng hm
+  | move now busy l' _ hng hm ih => exact C02_anymove_conserves _ _ now busy l' ih hng hm
   | env q ready _ ih => exact RInv_env _ _ ih q ready
   | add t _ hc hne hs ih => exact r_beginAdd _ _ ih hc t hne hs
   | update idx t _ hc hidx hs ih => exact r_beginUpdate _ _ ih hc idx t hidx hs
@@ -1978,7 +2176,7 @@ theorem Exec.runG {c0 : List TCfg} {l0 : Link} {chain : List TCfg} (now : Int) :
     · rename_i hg
       split at h
       · rename_i l1 hm
-        exact ih l1 l' h (Exec.move now false l1 he (noGiveUpB_sound l now hg) hm)
+        exact ih l1 l' h (Exec.move now false l1 he (noGiveUpB_sound l now hg) (anyMove_of_move l chain now false l1 hm))
       · simp only [Option.some.injEq] at h; subst h; exact he
     · cases h
 
